@@ -340,29 +340,45 @@ func (it *Interp) abstractFindAVP(g *G, appid *Term, code Value, vendor *Term, w
 	if withVendor {
 		it.assume(ts.Not(ts.Eq(vendor, ts.Const(32, undefinedVendor))))
 	}
-	ty := it.freshInput("dict.type", "dicttype", 8)
+	// a key that is syntactically the same as an earlier one gets the earlier answer's variable
+	var ty *Term
+	for _, l := range it.dictLookups {
+		if l.name == "" && ts.Eq(l.app, appid).IsTrue() && ts.Eq(l.code, ct).IsTrue() && ts.Eq(l.vendor, vendor).IsTrue() {
+			ty = l.ty
+			break
+		}
+	}
+	reused := ty != nil
+	if !reused {
+		ty = it.freshInput("dict.type", "dicttype", 8)
+	}
 	// a defined AVP carries one of the 18 named types of datatype.Available (UnknownType 0 is only
 	// produced by the MakeUnknownAVP placeholder); 255 = undefined
-	it.pc = append(it.pc, ts.Or(ts.And(ts.Ule(ts.Const(8, 1), ty), ts.Ule(ty, ts.Const(8, 18))), ts.Eq(ty, ts.Const(8, 255))))
-	if mask := it.cfg.Params["dict_types"]; mask != 0 {
-		// tier-dependent restriction of the dictionary answers to behaviour classes (stated in the bounds)
-		allowed := ts.Eq(ty, ts.Const(8, 255))
-		for k := 1; k <= 18; k++ {
-			if mask&(1<<uint(k)) != 0 {
-				allowed = ts.Or(allowed, ts.Eq(ty, ts.Const(8, uint64(k))))
+	if !reused {
+		cons := ts.Or(ts.And(ts.Ule(ts.Const(8, 1), ty), ts.Ule(ty, ts.Const(8, 18))), ts.Eq(ty, ts.Const(8, 255)))
+		if mask := it.cfg.Params["dict_types"]; mask != 0 {
+			// tier-dependent restriction of the dictionary answers to behaviour classes (stated in the bounds)
+			allowed := ts.Eq(ty, ts.Const(8, 255))
+			for k := 1; k <= 18; k++ {
+				if mask&(1<<uint(k)) != 0 {
+					allowed = ts.Or(allowed, ts.Eq(ty, ts.Const(8, uint64(k))))
+				}
 			}
+			cons = ts.And(cons, allowed)
 		}
-		it.pc = append(it.pc, allowed)
-	}
-	for _, l := range it.dictLookups {
-		same := ts.And(ts.Eq(l.app, appid), ts.And(ts.Eq(l.code, ct), ts.Eq(l.vendor, vendor)))
-		if same.IsFalse() {
-			continue
+		// functional consistency with every earlier lookup (one conjunction per lookup)
+		for _, l := range it.dictLookups {
+			same := ts.And(ts.Eq(l.app, appid), ts.And(ts.Eq(l.code, ct), ts.Eq(l.vendor, vendor)))
+			if same.IsFalse() {
+				continue
+			}
+			if l.name != "" {
+				// by-name definitions constrain only when defined
+				same = ts.And(same, ts.Not(ts.Eq(l.ty, ts.Const(8, 255))))
+			}
+			cons = ts.And(cons, ts.Implies(same, ts.Eq(l.ty, ty)))
 		}
-		c := ts.Implies(same, ts.Eq(l.ty, ty))
-		if !c.IsTrue() {
-			it.pc = append(it.pc, c)
-		}
+		it.pc = append(it.pc, cons)
 	}
 	lk := dictLookup{app: appid, code: ct, vendor: vendor, ty: ty}
 	it.dictLookups = append(it.dictLookups, lk)
